@@ -148,9 +148,37 @@ static void scenario(int ad, int out) {
     }
 }
 
+// two threads complete one operation at the same moment (the promise of make_promise "can be called concurrently, only the first call
+// is accepted"): the completion callback still runs exactly once, with the accepted call's outcome, and the helper is freed once
+static void two_resolvers_scenario(int other) {
+    int64_t *s = vrt_scratch();
+    {
+        auto fn = [](cocls::future<int> &f) { classify(f); };
+        cocls::promise<int> p = cocls::make_promise<int>(fn);
+        vstd::thread t1([&] {
+            vrt_label("r0");
+            vrt_scratch()[10] = p(5) ? 1 : 2;
+        });
+        vstd::thread t2([&] {
+            vrt_label("r1");
+            bool r = other == 0 ? bool(p(6)) : other == 1 ? bool(p(std::make_exception_ptr(TestError(1)))) : bool(p(cocls::drop));
+            vrt_scratch()[11] = r ? 1 : 2;
+        });
+        t1.join();
+        t2.join();
+        VRT_CHECK((s[10] == 1) + (s[11] == 1) == 1, "cb/two-resolvers-accepted", "acceptance reports of the two calls: %ld %ld (exactly one must be accepted)", (long)s[10], (long)s[11]);
+        VRT_CHECK(s[0] == 1, s[0] ? "cb/fired-more-than-once" : "cb/never-fired", "completion callback ran %ld times", (long)s[0]);
+        int ek = s[10] == 1 ? 1 : other == 0 ? 1 : other == 1 ? 2 : 3;
+        long ev = s[10] == 1 ? 5 : other == 0 ? 6 : 0;
+        VRT_CHECK(s[1] == ek && s[2] == ev, "cb/wrong-outcome", "callback saw kind=%ld val=%ld, the accepted call supplied kind=%d val=%ld", (long)s[1], (long)s[2], ek, ev);
+        vrt_outcome("winner=%d", s[10] == 1 ? 0 : 1);
+    }
+}
+
 VRT_REGISTER(reg_cb) {
     for (int ad = 0; ad < NADAPT; ad++)
         for (int out = 0; out < NOUT; out++) vrt::add(std::string("cb_") + ad_names[ad] + "_" + out_names[out], [=] { scenario(ad, out); });
+    for (int o = 0; o < 3; o++) vrt::add(std::string("cb_make_promise_two-resolvers_") + out_names[o], [=] { two_resolvers_scenario(o); });
 }
 }  // namespace
 int main(int argc, char **argv) { return vrt_main(argc, argv); }
